@@ -98,7 +98,7 @@ func (m *RWMutex) bind(e *Exec) {
 type wlockOp struct{ m *RWMutex }
 
 func (o wlockOp) enabled(*Exec, *thread) bool { return !o.m.w && o.m.r == 0 }
-func (o wlockOp) desc() string                { return fmt.Sprintf("Lock(rw%d)", o.m.id) }
+func (o wlockOp) desc() string                { return fmt.Sprintf("Lock-wait(rw%d)", o.m.id) }
 
 type rlockOp struct{ m *RWMutex }
 
@@ -115,6 +115,14 @@ func (m *RWMutex) Lock() {
 		return
 	}
 	m.bind(e)
+	// Two phases, as in sync.RWMutex: the call announces the writer (from then on new
+	// readers are held back), then waits for the lock to drain. A thread parked at the
+	// first point has not called Lock yet and must not hold readers back.
+	e.park(yieldOp{fmt.Sprintf("Lock(rw%d)", m.id)})
+	if !m.w && m.r == 0 && m.wWaiting == 0 {
+		m.w = true
+		return
+	}
 	m.wWaiting++
 	e.park(wlockOp{m})
 	m.wWaiting--
